@@ -280,6 +280,8 @@ def stage3(u, cs, A, IMPL):
 /// the contract above, read on the window chain[i..i+k] (how compute_schedule passes it)
 /// the outputs of all but the last op of the window are read by no op outside the window (what a packed Horner row needs: it creates only the last output); nothing in the packing predicate establishes it
 pub uninterp spec fn window_intermediates_read_only_by_the_chain(pre: Seq<Fe>, idx: Seq<usize>) -> bool;
+/// every HornerAcc op that directly follows another HornerAcc op in op order takes that op's output as its accumulator (the accumulator slot is not part of the preprocessed lane columns)
+pub uninterp spec fn adjacent_horner_ops_chain_through_the_accumulator(pre: Seq<Fe>) -> bool;
 #[verifier::external_body]
 pub fn horner_ops_share_b_idx(preprocessed: &[Fe], plw: usize, chain: &Vec<usize>, i: usize, k: usize) -> (r: bool)
     requires i + k <= chain@.len()
@@ -293,6 +295,8 @@ pub fn horner_ops_share_b_idx(preprocessed: &[Fe], plw: usize, chain: &Vec<usize
     cs.ensures('full_rows', 'ret matches Some(s) ==> s@.len() % (lanes as nat) == 0')
     cs.ensures('horner_steps_in_lane_0', f'ret matches Some(s) ==> lane0_discipline({PRE}, s@, lanes as int)')
     cs.ensures('packed_entries_contiguous_same_b_at_most_pack_k', f'ret matches Some(s) ==> packs_ok({PRE}, s@, pack_k as int)')
+    # the schedule treats a maximal run of HornerAcc ops as ONE chain; whether an op continues the chain (its accumulator is the previous op's output) is not in the preprocessed data it reads
+    cs.ensures('H_every_horner_op_after_another_continues_its_chain', f'ret is Some ==> adjacent_horner_ops_chain_through_the_accumulator({PRE})')
     cs.ensures('consecutive_lane0_horner_rows_continue_one_chain_and_row0_is_a_separator', f'ret matches Some(s) ==> rows_chain_ok({PRE}, s@, lanes as int)')
 
     cs.at_start('let ghost pre = preprocessed@; let ghost nn = n_ops(pre); let ghost lz = lanes as int; let ghost pk = pack_k as int;')
